@@ -102,6 +102,10 @@ def check_shape(part, normals, energies, case, key, scale_test=False):
                     if len(listed) != len(on_ref):
                         part.fail("facet-vertices:%s" % key, "facet %d lists %d distinct vertices, the half-space intersection has %d on that plane" % (i, len(listed), len(on_ref)), case)
                         break
+                    if len(lst) != len(listed):
+                        # a facet polygon names each of its corners once (a corner listed twice gives collapsed triangles and an open mesh)
+                        part.fail("facet-corner-listed-twice:%s" % key, "facet %d lists %d vertices for a polygon with %d corners (a corner is listed more than once)" % (i, len(lst), len(listed)), case)
+                        break
     except Exception as e:
         part.fail("facet-lists-raise:%s" % key, "reading wulff_facets raised %r" % e, case)
     lib_v = halfspace.dedupe(V, 1e-6 * scale)
@@ -175,7 +179,35 @@ def check_shape(part, normals, energies, case, key, scale_test=False):
     return len(part.failures) == nfail
 
 
+def corner_family_worker(part, _):
+    """
+    {100} + {111} facets at the cuboctahedron ratio e111 = 2/sqrt(3) e100 (and at the truncated-octahedron / truncated-cube ratios): corners
+    where FOUR facets meet, whose copies computed from different facet triples differ in the last bits.  The overall size runs over values
+    whose corner coordinates fall on, just below and just above multiples of 5e-6 and 1e-5 (where a de-duplication by rounding to a grid
+    would split a corner), and over generic sizes.
+    """
+    ax100 = [(1, 0, 0), (0, 1, 0), (0, 0, 1)]
+    ax111 = [(1, 1, 1), (1, 1, -1), (1, -1, 1), (-1, 1, 1)]
+    for ratio_name, ratio in (("cuboctahedron", 2.0 / np.sqrt(3.0)), ("truncated-octahedron", 1.5 / np.sqrt(3.0) * 1.0), ("truncated-cube", 2.4 / np.sqrt(3.0))):
+        for size in (1.0, 1.000005, 0.999995, 1.00001, 1.0000150000001, 2.000015, 0.500005, 3.1415926, 1.2345675):
+            normals, energies = [], []
+            for a in ax100:
+                n = unit(a)
+                normals += [n, -n]
+                energies += [size, size]
+            for a in ax111:
+                n = unit(a)
+                normals += [n, -n]
+                energies += [size * ratio, size * ratio]
+            case = {"kind": "corner", "ratio": ratio_name, "size": size}
+            check_shape(part, np.array(normals), np.array(energies), case, "corner:" + ratio_name, scale_test=False)
+    part.nontriv("corner")
+
+
 def axis_worker(part, chunk, alphabet):
+    if chunk and chunk[0] == "corner":
+        corner_family_worker(part, None)
+        return
     for idx, assign, extra in chunk:
         normals, energies = build_axis_case(assign, alphabet, extra)
         case = {"kind": "axis", "assign": list(assign), "alphabet": list(alphabet), "extra": [[list(a), e] for a, e in extra]}
@@ -237,7 +269,7 @@ def run(ctx):
             for ex in extras[1:]:
                 jobs.append((idx, assign, ex))
                 idx += 1
-    ctx.pmap(axis_worker, chunked(jobs, max(1, len(jobs) // 256)), alphabet=alphabet)
+    ctx.pmap(axis_worker, [["corner"]] + list(chunked(jobs, max(1, len(jobs) // 256))), alphabet=alphabet)
     gjobs = []
     idx = 0
     maxk = 12 if ctx.thorough else 7
@@ -264,6 +296,8 @@ def replay(ctx, case):
     k = case["kind"]
     if k == "axis":
         axis_worker(ctx, [(0, tuple(case["assign"]), tuple((tuple(a), e) for a, e in case["extra"]))], tuple(case["alphabet"]))
+    elif k == "corner":
+        corner_family_worker(ctx, None)
     elif k == "generic":
         generic_worker(ctx, [(0, tuple(case["subset"]), case["pattern"])], case["seed"])
     else:
